@@ -122,7 +122,7 @@ PROPS = {
         "assumptions": ["Probe supervisors use the Ignore policy so that upward propagation is not mixed into the downward clause"],
         "runs": [
             {"engine": "vt", "quick": 12000, "thorough": 600000, "what": "E-A: random trees, all exit causes incl. abort-at-poll-k, concurrent link ops as tasks, observer snapshots"},
-            {"engine": "th", "quick": 480, "thorough": 40000, "what": "E-T: same on 4 worker threads with noise + rendezvous LINK_BEFORE_LOCK <-> CLEANUP_AFTER_STOPPING"},
+            {"engine": "th", "quick": 1600, "thorough": 40000, "what": "E-T: same on 4 worker threads with noise + rendezvous LINK_BEFORE_LOCK <-> CLEANUP_AFTER_STOPPING"},
         ],
     },
     "C06": {
